@@ -35,6 +35,9 @@ func c13SnapObj(o any) string {
 		return snapDNS(r, r.NetworkRule != nil || len(r.HostRulesV4)+len(r.HostRulesV6) > 0)
 	case *rules.MatchingResult:
 		return snapWeb(r)
+	case *urlfilter.CosmeticResult:
+		// in the order returned: a result whose slices are overwritten later must show
+		return fmt.Sprintf("generic=%q specific=%q", r.ElementHiding.Generic, r.ElementHiding.Specific)
 	}
 	return "?"
 }
